@@ -3,7 +3,7 @@
   Theorems about the model of serialize.go (WR/C20/Serialize.lean) composed with the C06 tokenizer
   model, and about the separator table regenerated from the code (WR/Gen/C20Pairs.lean).
   Helper lemmas: WR/C20/Lemmas.lean, RoundTrip.lean, TokenLevel.lean, TokenLevel2.lean, Numbers.lean,
-  Partial.lean, Adjacent.lean.
+  Partial.lean, Adjacent.lean, RulesProof.lean (rule-level model: Rules.lean).
 
   FULL STATEMENT (P2 `roundtrip`):
       ∀ css, hasError (tokenize css) = false → roundTrips badPairs css = true
@@ -27,7 +27,7 @@
   a row (F20-8) and the token classes not handled as atoms: literals / delimiters (where the other
   three unrepaired findings live), unicode-range, blocks and functions (nesting), error tokens.
 -/
-import WR.C20.Adjacent
+import WR.C20.RulesProof
 namespace WR.Props.C20
 open WR.C06 WR.C20 WR.Gen.C20Pairs List
 
@@ -245,6 +245,29 @@ example : ∃ txt, Seq badPairs
   refine ⟨_, .cons _ _ _ _ _ (.dim 0 ['1'] true ['e', 'm'] ['e', 'm'] (by decide) (by decide))
     (.cons _ _ _ _ _ (.hashId 3 ['a'] ['a'] (by decide))
       (.cons _ _ _ _ _ (.ident 5 ['b'] ['b'] (by decide)) (.one _ _ (.str 6 ['c'])) rfl) rfl) rfl⟩
+
+/-- P2 `atrule_roundtrip_partial` (rule level, after commit eac44a9: the keyword is serialized together
+with the prelude).  For EVERY block-less at-rule whose keyword and prelude form a sequence of atoms
+(any keyword; identifiers, numbers, urls, strings, hashes, white space … adjacent in any order in the
+prelude): the rule serializer writes the text of the sequence followed by `;`; that text tokenizes
+back to the keyword, the prelude and a `;` (positions and inserted comments aside); and consuming an
+at-rule from those tokens gives the same keyword, the same prelude, no block, and leaves nothing. -/
+theorem atrule_roundtrip_partial (kw : Str) (pre : List Tok) (txt : Str)
+    (h : Seq badPairs (Tok.atkw 0 kw :: pre) txt) :
+    serCompound badPairs (.atrule 0 kw pre none) = some (txt ++ [';']) ∧
+    strip (tokenizePre Quirks.spec (txt ++ [';'])) = Tok.atkw 0 kw :: (strip pre ++ [Tok.lit 0 [';']]) ∧
+    consumeAtRule 0 kw (strip pre ++ [Tok.lit 0 [';']]) = (.atrule 0 kw (strip pre) none, []) :=
+  atrule_rt kw pre txt h
+
+/-- the repaired case `@a` directly followed by the identifier `b` is in the domain (a separator is written) -/
+example : Seq badPairs [Tok.atkw 0 ['a'], Tok.ident 2 ['b']] (['@', 'a'] ++ sepOf badPairs (Tok.atkw 0 ['a']) (Tok.ident 2 ['b']) ++ ['b']) :=
+  .cons _ _ _ _ _ (.atkw 0 ['a'] ['a'] (by decide)) (.one _ _ (.ident 2 ['b'] ['b'] (by decide))) rfl
+
+/-- regression of eac44a9 on the model of the rule serializer: `@a/**/b;` parsed without comments is
+written with a separator between keyword and prelude -/
+theorem regression_F20_10 :
+    serCompound badPairs (.atrule 0 ['a'] [Tok.ident 2 ['b']] none) = some ['@', 'a', '/', '*', '*', '/', 'b', ';'] := by
+  decide
 
 /-- the earlier, weaker form: identifiers, strings and urls separated by single white-space tokens -/
 theorem roundtrip_partial_ws_separated (ts : List Tok) (txt : Str) (h : WsSeparated ts txt) :
